@@ -4,7 +4,7 @@
 From Coq Require Import List NArith Arith Bool.
 Import ListNotations.
 From Mos Require Import model.SymGraph model.Analysis model.Rename spec.NavSpec spec.RenameSpec
-  proofs.SymGraphProofs proofs.NavProofs proofs.GreedyProofs proofs.RenameProofs.
+  proofs.SymGraphProofs proofs.NavProofs proofs.GreedyProofs proofs.RenameProofs model.RenameNames proofs.NamesProofs.
 
 (* The edit set, for every database, position and hash order that makes this symbol the first one found: exactly
    the places (definition site, usages) where the symbol found at the position is written with the name under the
@@ -33,6 +33,17 @@ Theorem C15_edit_text_is_new_name : forall names d f l c new old edits,
   rename_symbol names d f l c new = RenEdits old edits -> forall e, In e edits -> ed_text e = new.
 Proof. exact edit_text_is_new_name. Qed.
 Print Assumptions C15_edit_text_is_new_name.
+
+(* `names_in` (the environment function `names` of the handler): for every text, every name it reports stands in the
+   text exactly at the reported offset -- also when the same letters occur earlier (`draw_sprite as draw`, `x as a`). *)
+Theorem C15_names_in_offsets : forall t e, In e (names_in t) -> stands_at t e.
+Proof. exact names_in_offsets. Qed.
+Print Assumptions C15_names_in_offsets.
+
+Example C15_names_in_alias_is_prefix :
+  names_in [100; 114; 97; 119; 95; 115; 112; 32; 97; 115; 32; 100; 114; 97; 119]%N
+  = [(0, [100; 114; 97; 119; 95; 115; 112]%N); (11, [100; 114; 97; 119]%N)].
+Proof. vm_compute. reflexivity. Qed.
 
 (* What assembling the edited text builds is the table with relabelled edges: same edges, same order, same
    endpoints; the label differs exactly on the edges INTO the symbol that carried the old name. *)
